@@ -107,3 +107,30 @@ Proof.
     replace (IZR num / IZR den * IZR (2 ^ (- (E - 52))))%R with (IZR (num * 2 ^ (- (E - 52))) / IZR den)%R by (rewrite mult_IZR; field; lra).
     apply ZnearestE_ratio; [|lia]. apply Z.mul_nonneg_nonneg; [lia|apply Z.pow_nonneg; lia].
 Qed.
+
+(* the subnormal range: the unit is 2^-1074 *)
+Theorem round_rat_subnormal_is_flocq : forall num den, 0 < num -> 0 < den -> binade num den < -1022 ->
+  round radix2 fexp64 ZnearestE (IZR num / IZR den) = (IZR (rne_div (num * 2 ^ 1074) den) * bpow radix2 (-1074))%R.
+Proof.
+  intros num den Hn Hd HE. set (E := binade num den) in *.
+  assert (Pd : (0 < IZR den)%R) by (apply IZR_lt; exact Hd).
+  unfold round, F2R, scaled_mantissa, cexp. cbn [Fnum Fexp].
+  rewrite binade_is_mag by assumption. fold E.
+  assert (Cx : fexp64 (E + 1) = -1074) by (unfold FLT_exp; lia). rewrite Cx.
+  f_equal. f_equal.
+  change (- -1074) with 1074. rewrite bpow_IZR by lia.
+  replace (IZR num / IZR den * IZR (2 ^ 1074))%R with (IZR (num * 2 ^ 1074) / IZR den)%R by (rewrite mult_IZR; field; lra).
+  apply ZnearestE_ratio; [|lia]. apply Z.mul_nonneg_nonneg; [lia|apply Z.pow_nonneg; lia].
+Qed.
+
+(* both ranges together: what round_rat 53 1023 returns before packing the bits *)
+Theorem round_rat_is_flocq : forall num den, 0 < num -> 0 < den ->
+  round radix2 fexp64 ZnearestE (IZR num / IZR den) =
+    if binade num den <? -1022 then (IZR (rne_div (num * 2 ^ (53 - 1 - (1 - 1023))) den) * bpow radix2 (-1074))%R
+    else let s := binade num den - 52 in
+         (IZR (if 0 <=? s then rne_div num (den * 2 ^ s) else rne_div (num * 2 ^ (- s)) den) * bpow radix2 s)%R.
+Proof.
+  intros num den Hn Hd. destruct (Z.ltb_spec (binade num den) (-1022)) as [S|N].
+  - change (53 - 1 - (1 - 1023)) with 1074. apply round_rat_subnormal_is_flocq; assumption.
+  - apply round_rat_quotient_is_flocq; assumption.
+Qed.
